@@ -236,12 +236,8 @@ def build_cases(tier, rng):
             cases.append(Case(reorder(g, o), 0, name + "-shuffled"))
             cases.append(Case(reorder(g, o[::-1]), rng.choice([1, 2, 3]), name + "-shuffled-keys"))
     n_rand = 260 if tier == "quick" else 4000
-    n7 = 0
     for i in range(n_rand):
-        n = rng.choice([6, 6, 7, 8, 8, 9]) if tier == "quick" else rng.choice([6, 7, 7, 8, 8, 9, 9])
-        if tier == "quick" and n == 7:
-            n7 += 1
-            if n7 > 40: n = 6
+        n = rng.choice([6, 7, 7, 8, 8, 9]) if tier == "quick" else rng.choice([6, 7, 7, 8, 8, 9, 9])
         g = random_graph(rng, n, rng.choice([0.15, 0.3, 0.45, 0.6, 0.8]))
         if rng.random() < 0.15:                        # force an isolated vertex now and then
             v = rng.randrange(n)
@@ -249,27 +245,43 @@ def build_cases(tier, rng):
         o = list(range(n)); rng.shuffle(o)
         cases.append(Case(reorder(g, o), 0 if i % 3 else rng.choice([1, 2, 3]), "random"))
     for fn, g, tw, meths in bench_graphs():
-        # the model is compared for min_fill only (cheap); the exact methods are judged by td_ok
-        # and the reference treewidth
-        cases.append(Case(g, 0, "bench:" + fn, expect=tw, methods=["min_fill"], model=True, helpers=True))
-        ex = [m for m in meths if m != "min_fill"]
-        if tier == "quick": ex = [m for m in ex if (fn, m) in QUICK_BENCH]
-        if ex:
-            cases.append(Case(g, 0, "bench:" + fn, expect=tw, methods=ex, model=False, helpers=False))
+        # methods as in /repo/test/test_factorize.py
+        cases.append(Case(g, 0, "bench:" + fn, expect=tw, methods=meths, model=True, helpers=True))
     return cases, n_exh, exh
 
-QUICK_BENCH = {("BidiakisCube.gr", "quickbb"), ("BidiakisCube.gr", "acb"), ("BlanusaSecondSnarkGraph.gr", "quickbb")}
+def _run_model(cf, values, seed, tag, tier):
+    """Bulk run through the extracted code; a random sample of the zero verdicts and the non-zero
+    verdicts on the smallest graphs are re-evaluated inside the Coq kernel (vm_compute) and must
+    agree.  (Own copy of core.run_model with tier-dependent caps: vm_compute is ~100x slower than
+    the extracted code on 9-vertex graphs.)"""
+    n_sample, n_bad = (24, 16) if tier == "quick" else (60, 40)
+    codes = run_ocaml(cf, values)
+    rng = random.Random(seed * 7919 + 13)
+    idx = list(range(len(values)))
+    bad = sorted((i for i in idx if codes[i] != 0 and len(values[i][0]) <= 9), key=lambda i: len(values[i][0]))[:n_bad]
+    rest = [i for i in idx if codes[i] == 0 and len(values[i][0]) <= 9]     # not the 12..25-vertex benchmark graphs
+    rng.shuffle(rest)
+    pick = sorted(set(bad + rest[:n_sample]))
+    if pick:
+        ccodes = run_coq(cf, [values[i] for i in pick], tag=tag)
+        for i, c in zip(pick, ccodes):
+            if c != codes[i]:
+                raise BuildError("extracted code and vm_compute disagree on %s case %d: %d vs %d" % (cf.kind, i, codes[i], c))
+    return codes, len(pick)
 
 def run(tier, seed):
     rng = random.Random(seed)
     violations = []
+    import time
+    t0 = time.time()
     cases, n_exh, exh = build_cases(tier, rng)
     out = dict(td=[], tdx=[], ord=[], ordx=[], mmw=[])
     for c in cases:
         run_case(c, out, violations)
+    t_impl = time.time() - t0
     nk = 0
     # --- tree_decomposition
-    codes, k = run_model(TD, [v for v, _, _ in out["td"]], seed=seed, tag="c10td"); nk += k
+    codes, k = _run_model(TD, [v for v, _, _ in out["td"]], seed, "c10td", tier); nk += k
     hist = {}
     f8 = 0
     for (v, c, method), code in zip(out["td"], codes):
@@ -281,24 +293,24 @@ def run(tier, seed):
         violations.append(Violation("%s: %s" % (method, TD_MSG.get(code, "verdict code %d" % code)),
                                     case=c.meta(method=method), observed=(v[4] if code != 5 else c.exc.get(method)),
                                     oracle="td_ok / tw_perm" if code < 10 else None,
-                                    corr="C10_td_ok_sound / corr:tree_decomposition (Model.TreeDec.td_check code %d)" % code,
+                                    corr="C10_td_check_sound (C10_td_ok_sound_complete, C10_tw_oracle_spec) / corr:tree_decomposition (Model.TreeDec.td_check code %d)" % code,
                                     failing_input_found=(code < 10 and code != 2),
                                     call="fggs.factorize.tree_decomposition(graph, method=%r)" % method, finding_key=key))
     # --- min_fill / quickbb called directly
-    ocodes, k = run_model(ORD, [v for v, _, _ in out["ord"]], seed=seed, tag="c10ord"); nk += k
+    ocodes, k = _run_model(ORD, [v for v, _, _ in out["ord"]], seed, "c10ord", tier); nk += k
     for (v, c, fname), code in zip(out["ord"], ocodes):
         if code == 0: continue
         violations.append(Violation("%s: %s" % (fname, ORD_MSG.get(code, "verdict code %d" % code)),
                                     case=c.meta(function=fname), observed=v[4], oracle="elim_width / tw_perm" if code < 10 else None,
-                                    corr="C10_min_fill_reports_width / corr:order (Model.TreeDec.order_check code %d)" % code,
+                                    corr="C10_order_check_sound / corr:order (Model.TreeDec.order_check code %d)" % code,
                                     failing_input_found=(code < 10 and code != 2), call="fggs.factorize.%s(graph)" % fname))
     # --- minor_min_width
-    mcodes, k = run_model(MMW, [v for v, _, _ in out["mmw"]], seed=seed, tag="c10mmw"); nk += k
+    mcodes, k = _run_model(MMW, [v for v, _, _ in out["mmw"]], seed, "c10mmw", tier); nk += k
     for (v, c, fname), code in zip(out["mmw"], mcodes):
         if code == 0: continue
         violations.append(Violation("minor_min_width: %s" % MMW_MSG.get(code, "verdict code %d" % code),
                                     case=c.meta(function=fname), observed=v[3], oracle="tw_perm" if code < 10 else None,
-                                    corr="C10_bounds_bracket_upto5 / corr:mmw (Model.TreeDec.mmw_check code %d)" % code,
+                                    corr="C10_mmw_check_sound, C10_bounds_bracket / corr:mmw (Model.TreeDec.mmw_check code %d)" % code,
                                     failing_input_found=(code < 10 and code != 2), call="fggs.factorize.minor_min_width(graph)"))
     # --- exact agreement with the model (measured, never a verdict)
     xcodes = run_ocaml(TDX, [v for v, _, _ in out["tdx"]])
@@ -321,16 +333,16 @@ def run(tier, seed):
         srcs[s] = srcs.get(s, 0) + 1
     td_vals = out["td"]
     samples = []
-    for pick in (n_exh // 2, len(td_vals) // 2, len(td_vals) - 1):
-        if 0 <= pick < len(td_vals):
-            v, c, method = td_vals[pick]
-            samples.append(dict(graph=c.g, key_kind=c.kind, method=method, impl_tree=v[4], verdict=codes[pick]))
+    small = [i for i, (v, c, method) in enumerate(td_vals) if len(c.g) <= 9]
+    for pick in (small[n_exh // 2], small[len(small) // 2], small[-1]):
+        v, c, method = td_vals[pick]
+        samples.append(dict(graph=c.g, key_kind=c.kind, source=c.src, method=method, impl_tree=v[4], verdict=codes[pick]))
     cov = dict(evaluations=len(out["td"]) + len(out["ord"]) + len(out["mmw"]),
                distinct_nontrivial=len(nontriv),
                rule="every labelled simple graph on <= %d vertices (%d graphs; those on 2..5 vertices additionally with reversed and with shuffled dict insertion order) + cliques K1..K8, grids, paths, stars, cycles, random trees, disjoint unions, graphs with isolated vertices, the empty graph + random graphs on 6..9 vertices with shuffled insertion order and 4 key types + the benchmark graphs of /repo/test/graphs; each x {min_fill, quickbb, acb} x {tree_decomposition, min_fill, quickbb, minor_min_width}; every call gets a fresh copy of the graph. non-trivial = >= 3 vertices and >= 1 edge, distinct by (n, edge set)" % (exh, n_exh),
                exhaustive_part="all labelled graphs on <= %d vertices" % exh,
                samples=samples, size_histogram=sizes, source_histogram=srcs, calls_per_method=hist,
-               kernel_reevaluated=nk,
+               kernel_reevaluated=nk, seconds=dict(implementation_calls=round(t_impl, 1), total_run=round(time.time() - t0, 1)),
                exact_agreement=dict(trees="%d/%d" % (x_ok, len(xcodes)), orders="%d/%d" % (y_ok, len(ycodes)),
                                     note="int keys, <= 8 vertices; measured only"),
                f8_cases=f8,
